@@ -525,5 +525,19 @@ B(["C18", "C02"], "sanitiser extracted into a helper", T,
 
 # benign refactorings written by independent sub-agents (tools/benign.py)
 for _p in sorted(glob.glob(os.path.join(HERE, "benign", "*", "patch.diff"))):
-    CASES.append((ALL, "benign/agent/" + os.path.basename(os.path.dirname(_p)),
-                  "<patch>", _p, None, "silent", None))
+    _m = os.path.join(os.path.dirname(_p), "meta.json")
+    _meta = json.load(open(_m, encoding="utf-8")) if os.path.exists(_m) else {}
+    _name = os.path.basename(os.path.dirname(_p))
+    if _meta.get("expected_alarm"):
+        # a feature addition that repeats a known-finding pattern of the tree
+        # (a true positive): the named check must report it, the others must
+        # stay silent
+        _ea = _meta["expected_alarm"]
+        CASES.append((_ea["property"], "feature-with-known-defect/" + _name,
+                      "<patch>", _p, None, "violation", _ea.get("rule")))
+        CASES.append(([p_ for p_ in ALL if p_ != _ea["property"]],
+                      "benign/agent/" + _name, "<patch>", _p, None, "silent",
+                      None))
+        continue
+    CASES.append((ALL, "benign/agent/" + _name, "<patch>", _p, None, "silent",
+                  None))
